@@ -1,9 +1,17 @@
 package main
+import (
+	"fmt"
+	"go/token"
+	"strings"
+
+	"golang.org/x/tools/go/ssa"
+)
+
 
 func init() { register("C10", "other", checkC10) }
 
 func checkC10(c *Ctx, r *Report) {
-	r.Explanation = "Decides the decoded-length discipline in pkg/protocol (a necessary condition of 'request decoding never crashes'): every integer decoded from request bytes (BigEndian.UintN, binary.Uvarint, helpers returning them) that reaches a slice bound, a make() size or a cursor advance (r.pos += n) is, on every path — in the function itself or at every call site that passes a decoded value — checked against an upper bound and, when it can be negative, against zero (panic mode: allocation sizes need only be non-negative). Also: byteReader.pos is advanced only inside read and UVarint. It does not decide the round-trip clause, which is a statement about kmsg's codec, nor panics inside kmsg."
+	r.Explanation = "Decides the decoded-length discipline in pkg/protocol (a necessary condition of 'request decoding never crashes'): every integer decoded from request bytes (BigEndian.UintN, binary.Uvarint, helpers returning them) that reaches a slice bound, a make() size or a cursor advance (r.pos += n) is, on every path — in the function itself or at every call site that passes a decoded value — checked against an upper bound and, when it can be negative, against zero (panic mode: allocation sizes need only be non-negative). Also: byteReader.pos is advanced only inside read and UVarint. (R3) the one hand-written string decoder of the request header, NullableString, returns null only on the true edge of `length == -1` and otherwise the address of string(read(int(length))) — so an empty client id stays a string and the header round-trips. The body's round-trip is a statement about kmsg's codec and is not decided, nor panics inside kmsg."
 	r.NotCovered = "round-trip equality (kmsg codec); panics inside the kmsg dependency; allocation size of a 31-bit frame length (reported as information in DESIGN.md)"
 	m, err := c.Mod("root")
 	if err != nil {
@@ -12,10 +20,96 @@ func checkC10(c *Ctx, r *Report) {
 	}
 	r.rule("C10.R1", "decoded-length discipline (panic mode) over pkg/protocol: slice bounds, make sizes and cursor advances fed by decoded values are bounded / non-negative on every path", 3)
 	r.rule("C10.R2", "who-may-write byteReader.pos: read, UVarint (after their checks)", 2)
+	r.rule("C10.R3", "NullableString: null only for length -1; otherwise exactly the bytes of the announced length (an empty string stays a string)", 2)
 	d := newDL(m, dlConfig{Mode: dlPanic, Pkgs: []string{pkgProtocol}})
 	r.Extra["sinks"] = d.run(r, "C10.R1")
 	checkWriterTable(m, r, "C10.R2", pkgProtocol+".byteReader", "pos", false, map[string]string{
 		"(*" + pkgProtocol + ".byteReader).read":    "advance after remaining() check",
 		"(*" + pkgProtocol + ".byteReader).UVarint": "advance by the byte count binary.Uvarint consumed",
 	})
+	checkNullableString(m, r)
 }
+
+// checkNullableString: the header's client id round-trips. (nil, nil) is returned only on the true
+// edge of `l == -1`; a successful non-null return is the address of string(b) with b read with
+// length int(l).
+func checkNullableString(m *Module, r *Report) {
+	fn := needFn(m, r, "C10.R3", pkgProtocol, "(*byteReader).NullableString")
+	if fn == nil {
+		return
+	}
+	var lenCall *ssa.Call
+	for _, c := range callsIn(fn) {
+		if strings.HasSuffix(calleeName(c.Common()), "byteReader).Int16") {
+			lenCall, _ = c.(*ssa.Call)
+		}
+	}
+	if lenCall == nil {
+		r.unresolved("C10.R3", "NullableString: length read", "no Int16 call")
+		return
+	}
+	isLen := func(v ssa.Value) bool {
+		hit := false
+		backSlice(v, false, func(w ssa.Value) {
+			if ex, ok := w.(*ssa.Extract); ok && ex.Tuple == ssa.Value(lenCall) && ex.Index == 0 {
+				hit = true
+			}
+		})
+		return hit
+	}
+	nullOnly := Guard{cl(atomFn("l == -1", func(l Lit) bool {
+		if l.Op != token.EQL {
+			return false
+		}
+		k, ok := constInt(l.Y)
+		return ok && k == -1 && isLen(l.X)
+	}))}
+	nNull, nStr := 0, 0
+	for _, b := range fn.Blocks {
+		ret, ok := b.Instrs[len(b.Instrs)-1].(*ssa.Return)
+		if !ok || len(ret.Results) != 2 || !isNilConst(ret.Results[1]) {
+			continue
+		}
+		if isNilConst(ret.Results[0]) {
+			nNull++
+			guardVerdict(m, r, "C10.R3", "NullableString returns null only for the length -1", fn, ret, nullOnly)
+			continue
+		}
+		nStr++
+		key := "NullableString returns exactly the bytes of the announced length"
+		why := ""
+		al, ok := strip(ret.Results[0]).(*ssa.Alloc)
+		if !ok {
+			why = "the result is " + describe(ret.Results[0])
+		} else {
+			okVal := false
+			for _, st := range storesTo(al) {
+				cv, ok := strip2(st).(*ssa.Convert)
+				if !ok {
+					continue
+				}
+				ex, ok := cv.X.(*ssa.Extract)
+				if !ok {
+					continue
+				}
+				rc, ok := ex.Tuple.(*ssa.Call)
+				if ok && strings.HasSuffix(calleeName(&rc.Call), "byteReader).read") && isLen(rc.Call.Args[len(rc.Call.Args)-1]) {
+					okVal = true
+				}
+			}
+			if !okVal {
+				why = "the string is not string(read(int(l)))"
+			}
+		}
+		if why == "" {
+			r.ok("C10.R3", key, m.Pos(ret.Pos()), "")
+		} else {
+			r.viol("C10.R3", key, m.Pos(ret.Pos()), why)
+		}
+	}
+	if nNull == 0 || nStr == 0 {
+		r.unresolved("C10.R3", "NullableString returns", fmt.Sprintf("%d null returns, %d string returns", nNull, nStr))
+	}
+}
+
+func strip2(v ssa.Value) ssa.Value { return v }
